@@ -253,7 +253,10 @@ def norm_res(v, side):
     if v.startswith('ok'):
         return v
     if v.startswith('err:'):
-        _, kind, pos = v.split(':')
+        parts = v.split(':')
+        if len(parts) < 3:
+            return v
+        _, kind, pos = parts[:3]
         return 'err:%s:%s' % (kind, pos if kind in CONTENT_KINDS else '*')
     if v.startswith('crash:Panic') or v == 'panic':
         return 'panic'
